@@ -451,6 +451,17 @@ where
         if C::REVISIONS != IMMORTAL {
             self.revision_queue.record(current_revision);
         }
+        #[cfg(salsa_rs_salsa_verif)]
+        if C::REVISIONS != IMMORTAL {
+            crate::verif_life::emit(|| {
+                format!(
+                    "iq {} {} {}",
+                    self.ingredient_index.as_u32(),
+                    current_revision.as_usize(),
+                    C::REVISIONS.get()
+                )
+            });
+        }
 
         // Hash the value before acquiring the lock.
         let hash = self.hasher.hash_one(&key);
@@ -538,6 +549,16 @@ where
                 Some(verif_before),
                 (metadata.last_interned_at, *durability),
             );
+            #[cfg(salsa_rs_salsa_verif)]
+            crate::verif_life::emit(|| {
+                format!(
+                    "ihit {} {} {} {}",
+                    metadata.id.index(),
+                    metadata.id.generation(),
+                    metadata.last_interned_at.as_usize(),
+                    is_reusable::<C>(*durability) as u8
+                )
+            });
 
             return metadata.id;
         }
@@ -659,6 +680,17 @@ where
             };
         }
 
+        #[cfg(salsa_rs_salsa_verif)]
+        crate::verif_life::emit(|| {
+            format!(
+                "ireuse {} {} {} {} {}",
+                slot.old_id.index(),
+                slot.old_id.generation(),
+                slot.new_id.generation(),
+                last_interned_at.as_usize(),
+                is_reusable::<C>(durability) as u8
+            )
+        });
         // SAFETY: `find_reusable_slot` guarantees that the value is reusable and stale, so no
         // references to its memos remain. We still hold the shard lock.
         let memo_table = unsafe { &mut *value.memos.get() };
@@ -775,6 +807,16 @@ where
             None,
             (last_interned_at, durability),
         );
+        #[cfg(salsa_rs_salsa_verif)]
+        crate::verif_life::emit(|| {
+            format!(
+                "inew {} {} {} {}",
+                id.index(),
+                last_interned_at.as_usize(),
+                is_reusable::<C>(durability) as u8,
+                self.ingredient_index.as_u32()
+            )
+        });
 
         id
     }
@@ -1052,6 +1094,9 @@ where
         // SAFETY: Reusable interned values are only exposed if they have been validated
         // in the current revision, as checked by the assertion above, which ensures that
         // they are not reused while being accessed. Non-reusable values are never reused.
+        #[cfg(salsa_rs_salsa_verif)]
+        crate::verif_life::emit(|| format!("fhandout 2 {}", id.index()));
+        // SAFETY: as above.
         unsafe { Self::from_internal_data(&*value.fields.get()) }
     }
 
@@ -1357,6 +1402,17 @@ where
         if C::REVISIONS != IMMORTAL {
             self.revision_queue.record(current_revision);
         }
+        #[cfg(salsa_rs_salsa_verif)]
+        if C::REVISIONS != IMMORTAL {
+            crate::verif_life::emit(|| {
+                format!(
+                    "iq {} {} {}",
+                    self.ingredient_index.as_u32(),
+                    current_revision.as_usize(),
+                    C::REVISIONS.get()
+                )
+            });
+        }
 
         let value = zalsa.table().get::<Value<C>>(input);
 
@@ -1380,12 +1436,30 @@ where
                 input,
                 verif_lia_before,
             );
+            #[cfg(salsa_rs_salsa_verif)]
+            crate::verif_life::emit(|| {
+                format!(
+                    "imca {} {} 1 {}",
+                    input.index(),
+                    input.generation(),
+                    metadata.last_interned_at.as_usize()
+                )
+            });
 
             return VerifyResult::changed();
         }
 
         // Validate the value for the current revision to avoid reuse.
         metadata.last_interned_at = current_revision;
+        #[cfg(salsa_rs_salsa_verif)]
+        crate::verif_life::emit(|| {
+            format!(
+                "imca {} {} 0 {}",
+                input.index(),
+                input.generation(),
+                current_revision.as_usize()
+            )
+        });
 
         #[cfg(salsa_rs_salsa_verif)]
         self.verif_record_mca(
